@@ -198,6 +198,23 @@ def do_update(ctx, repo, rng, trail, focus, with_id=None, pending=None):
                detail={"new": new, "shown": shown, "id_ok": id_ok, "show_ok": show_ok, "pending_model_agrees": bool(v[2])})
     return new
 
+def failing_update(ctx, repo, rng, trail):
+    """An update that cannot succeed (git cannot be run): it must exit non-zero and leave the store exactly as it was -
+    in particular no checkpoint may appear where there was none."""
+    before = show_checkpoint(repo)
+    args = ["checkpoint", "update", "--git-path", "/nonexistent/bin/git"] + (["--pending"] if rng.random() < 0.5 else [])
+    rc, out, err, raw = vlib.monorail(repo.repo, *args)
+    trail.append(["update_that_fails", args[2:]])
+    after = show_checkpoint(repo)
+    rc2, an, err2, raw2 = vlib.monorail(repo.repo, "analyze")
+    want_all = sorted(t["path"] for t in CFG["targets"])
+    ok = rc != 0 and after == before
+    if before is None: ok = ok and rc2 == 0 and bool(an) and an.get("checkpointed") is False and an.get("targets") == want_all
+    ctx.count("failing_update_%s" % ("no_checkpoint" if before is None else "over_checkpoint"))
+    ctx.record({"trail": list(trail), "what": "an update that fails leaves the store unchanged"}, True, ok, ok, before is None,
+               sample={"ops": trail[-4:], "rc": rc, "show_before": before, "show_after": after} if before is None else None,
+               detail={"rc": rc, "show_before": before, "show_after": after, "analyze": an if before is None else None})
+
 def scenario(ctx, sseed, focus):
     import random
     rng = random.Random(sseed)
@@ -214,19 +231,23 @@ def scenario(ctx, sseed, focus):
             r = rng.random()
             if focus == "C19" and r < 0.35 or r < 0.12:
                 k = rng.random()
-                if k < 0.55:
+                if k < 0.45:
                     do_update(ctx, repo, rng, trail, focus, with_id=(rng.choice(repo.commits) if rng.random() < 0.3 else None))
+                elif k < 0.55 and focus == "C19":
+                    failing_update(ctx, repo, rng, trail)
                 elif k < 0.8:
                     had = show_checkpoint(repo) is not None
                     rc, out, err, raw = vlib.monorail(repo.repo, "checkpoint", "delete"); trail.append(["cp_delete"])
                     ok = (rc == 0) == had and show_checkpoint(repo) is None
                     ctx.record({"trail": list(trail)}, True, ok, ok, False, detail={"what": "checkpoint delete", "rc": rc, "had": had})
                     after_delete(ctx, repo, trail)
+                    if focus == "C19" and rng.random() < 0.5: failing_update(ctx, repo, rng, trail)
                 else:
                     rc, out, err, raw = vlib.monorail(repo.repo, "out", "delete", "--all"); trail.append(["out_delete_all"])
                     ok = rc == 0 and show_checkpoint(repo) is None
                     ctx.record({"trail": list(trail)}, True, ok, ok, False, detail={"what": "out delete --all", "rc": rc})
                     after_delete(ctx, repo, trail)
+                    if focus == "C19" and rng.random() < 0.5: failing_update(ctx, repo, rng, trail)
                 continue
             if focus == "C07" and r < 0.45:
                 if rng.random() < 0.25: c07_stale_round(ctx, repo, rng, trail)
